@@ -440,6 +440,9 @@ func synthCase(r *hlib.Rng, p *pki, res *hlib.Result) *Case {
 		if r.Bool() {
 			c.AttOK = append(c.AttOK, rbytes(r, 64)...)
 		}
+		// how the policy reaches the verifier: descriptor constraints shape x consensus default
+		c.Reg = []string{"", "nil", "empty", "ias", "pcs", "both", "empty", "nil"}[r.Intn(8)]
+		c.regWanted = true
 	}
 	// ---- assemble the quote
 	qe := append(append(append([]byte{}, qer...), qes...), le16(len(auth))...)
@@ -507,6 +510,33 @@ func synthCase(r *hlib.Rng, p *pki, res *hlib.Result) *Case {
 		pol.FMSPCWhitelist = []string{"00906ED50000", fmspcStr}
 	}
 	c.Pol = pol
+	if c.regWanted && c.Reg != "" {
+		c.FsPCS = !r.Chance(1, 8)
+		c.Def = []string{"pcs", "pcs", "pcs", "pcs", "none", "nil"}[r.Intn(6)]
+		c.DefIAS = r.Bool()
+		if c.Def == "pcs" {
+			dp := *pol
+			dp.Disabled = false
+			switch r.Intn(6) {
+			case 0:
+				dp.Disabled = true
+			case 1:
+				dp.MinTCBEvaluationDataNumber = pol.MinTCBEvaluationDataNumber + 5
+			case 2:
+				dp.FMSPCBlacklist = []string{fmspcStr}
+			case 3:
+				dp.TCBValidityPeriod = 0
+			case 4:
+				if r.Bool() {
+					dp.TDX = nil
+				}
+			}
+			c.DefPol = &dp
+			if r.Chance(1, 10) {
+				c.DefPol = nil // DefaultPolicy{PCS: nil}
+			}
+		}
+	}
 
 	// ---- TCB info
 	day := 24 * time.Hour
